@@ -337,8 +337,9 @@ def true_kernel_part(chk, tier, alljobs):
         if len(job) > 3:                                   # the long (many-segment) records: always, thick and thin
             if job[3] < 3:
                 js.append((rec, job[1], job[2], [True, False, 'fat'][job[3]]))
-        elif big and rnd.random() < frac:
-            js.append((rec, job[1], job[2], rnd.choice([True, False, 'fat'])))
+        elif big and int(C.h([C.seed(), 'c02-true', rec['input'], job[1]]), 16) % 10000 < frac * 10000:
+            # (selected by hash, not by position: TLC's simulation output order varies from run to run)
+            js.append((rec, job[1], job[2], [True, False, 'fat'][int(C.h([rec['input'], 'kind']), 16) % 3]))
     worst = 0.0
     npairs = 0
     for j, o in zip(js, C.parallel_map(true_case, js, chunksize=4)):
